@@ -79,16 +79,28 @@ pub fn lattice_full() -> Vec<Cfg> {
     v
 }
 
-/// The quick sub-lattice: every "first time a loop iterates more than twice" point (75 points)
+/// The quick sub-lattice (136 points): every "first time a loop iterates more than twice" point, every padding
+/// regime (c = m, 2m, 4m), degrees {1,2,3,6}, all seven bit lengths, and a few points with aggregation 16 / 32
 pub fn lattice_quick() -> Vec<Cfg> {
     let mut v = Vec::new();
     for &n in &[1usize, 2, 4, 8, 64] {
-        for &(m, c) in &[(1usize, 1usize), (1, 2), (2, 2), (2, 8), (8, 8)] {
-            for &d in &[1usize, 2, 6] {
+        for &(m, c) in &[(1usize, 1usize), (1, 2), (2, 2), (2, 8), (4, 4), (8, 8)] {
+            for &d in &[1usize, 2, 3, 6] {
                 v.push(Cfg::new(n, m, c, d));
             }
         }
     }
+    for &n in &[16usize, 32] {
+        for &(m, c) in &[(1usize, 1usize), (2, 2), (4, 8)] {
+            for &d in &[1usize, 6] {
+                v.push(Cfg::new(n, m, c, d));
+            }
+        }
+    }
+    v.push(Cfg::new(2, 16, 16, 1));
+    v.push(Cfg::new(8, 16, 32, 2));
+    v.push(Cfg::new(64, 16, 16, 1));
+    v.push(Cfg::new(1, 32, 32, 1));
     v
 }
 
